@@ -46,19 +46,49 @@ class Result:
 
 
 # ---------------------------------------------------------------- Coq side
-def coq_build(res):
-    """full .vo build through coq_makefile (incremental across runs; never -vos)"""
-    if not os.path.exists(os.path.join(COQ, "Makefile")) or \
-            os.path.getmtime(os.path.join(COQ, "_CoqProject")) > os.path.getmtime(os.path.join(COQ, "Makefile")):
+def translate(res):
+    """tie T-A: regenerate coq/Gen/Gen*.v from /repo's current source"""
+    rc, out = sh("python3 tools/translate.py", cwd=ROOT, timeout=120, env={"VERIF_REPO": REPO})
+    if rc != 0:
+        res.broken.append(("tie", "translator (tools/translate.py)", out[-2000:]))
+        return False
+    return True
+
+
+def coq_make(target, timeout=3000):
+    return sh("timeout %d make -j%d %s" % (timeout, NPROC, target), cwd=COQ, timeout=timeout + 100)
+
+
+def coq_build(res, pid=None, ties=()):
+    """full .vo build (never -vos) of what this property depends on, through coq_makefile:
+    the model + extraction, the tie lemmas about the regenerated definitions, the property file.
+    Building per target keeps a broken obligation of one property from raising alarms for others."""
+    translate(res)
+    mk = os.path.join(COQ, "Makefile")
+    if not os.path.exists(mk) or os.path.getmtime(os.path.join(COQ, "_CoqProject")) > os.path.getmtime(mk):
         rc, out = sh("coq_makefile -f _CoqProject -o Makefile", cwd=COQ, timeout=120)
         if rc != 0:
             res.broken.append(("build", "coq_makefile", out[-2000:]))
             return False
-    rc, out = sh("timeout 3000 make -j%d" % NPROC, cwd=COQ, timeout=3100)
+    rc, out = coq_make("Extract.vo")
     if rc != 0:
-        res.broken.append(("proof", "coq build (make)", out[-3000:]))
+        res.broken.append(("proof", "model / extraction build (make Extract.vo)", out[-3000:]))
         return False
-    return True
+    ok = True
+    for t in ties:
+        rc, out = coq_make("Gen/%s.vo" % t, 1200)
+        res.cov["obligations"] += 1
+        if rc != 0:
+            res.broken.append(("proof", "Gen/%s.v (lemma about the definitions regenerated from the source)" % t, out[-1500:]))
+            ok = False
+        else:
+            res.cov["discharged"] += 1
+            res.extra.setdefault("tie_lemmas", []).append(t)
+    if pid:
+        rc, out = coq_make("Properties/%s.vo" % pid)
+        if rc != 0 and not any("Properties/%s.v" % pid in n for _, n, _ in res.broken):
+            pass  # reported by coq_property_file
+    return ok
 
 
 def coq_hygiene(res):
